@@ -881,6 +881,8 @@ class DNA(symbolic.Object):
         raise ValueError(
             f'DNA value type mismatch. Value: {self.value}, '
             f'Spec: {spec!r}.')
+      if self.value != self.value:
+        raise ValueError(f'DNA value should not be NaN. Spec: {spec!r}.')
       if self.value < spec.min_value:
         raise ValueError(
             f'DNA value should be no less than {spec.min_value}. '
